@@ -264,13 +264,13 @@ pub fn spec_text(spec: &ValueSpec) -> String {
             VSrc::Tuple { ty, a, b, c, d } => format!("tuple#{}({},{},{},{:?})", ty, a, b, c, d),
         }
     }
-    match spec {
-        ValueSpec::Version(s) => v(s),
-        ValueSpec::Range(r) => r.describe(),
-        ValueSpec::VersionList(l) => format!("[{}]", l.iter().map(v).collect::<Vec<_>>().join(", ")),
-        ValueSpec::RangeList(l) => format!(
-            "[{}]",
-            l.iter().map(|r| r.describe()).collect::<Vec<_>>().join(", ")
-        ),
+    let (shape, parts): (crate::plan::Shape, Vec<String>) = match spec {
+        ValueSpec::Versions { shape, items } => (*shape, items.iter().map(v).collect()),
+        ValueSpec::Ranges { shape, items } => (*shape, items.iter().map(|r| r.describe()).collect()),
+    };
+    if shape == crate::plan::Shape::One && parts.len() == 1 {
+        parts[0].clone()
+    } else {
+        format!("{}[{}]", shape.name(), parts.join(", "))
     }
 }
